@@ -24,4 +24,7 @@ def run(rep, fb, tier):
     _pb2.rule_py_layout_attrs(rep)
     from ..rules import pyrules as _pr5
     _pr5.rule_py_call_shape(rep)
+    _pr5.rule_py_numba_view_start(rep)
+    _pr5.rule_py_numba_lowering(rep)
+    _pr5.rule_py_self_attrs(rep)
     rep.units = fb.units + ["src/awkward/_connect/_numba/*.py, _libawkward.py (ast)"]
